@@ -23,6 +23,9 @@ type c07Oracle struct {
 	awardTo       map[string]sdk.Int
 	nontrivial    bool
 	aborted       bool
+	// burn requests other modules made since the last BeginBlock, as the harness's own handler recorded them
+	// (address -> summed severity, scaled by 10^18); the stored burn queue is not consulted
+	queued map[string]*big.Int
 }
 
 type c07Val struct {
@@ -87,6 +90,17 @@ func (o *c07Oracle) after(ch *chain, ci *callInfo) *Violation {
 			}
 		}
 	}
+	if ci.Kind == "tx" || ci.Kind == "end" {
+		// the handler's log of this block so far (reset by the harness when the next block begins)
+		o.queued = map[string]*big.Int{}
+		for _, b := range ci.Burns {
+			k := hex.EncodeToString(b.Target)
+			if o.queued[k] == nil {
+				o.queued[k] = new(big.Int)
+			}
+			o.queued[k].Add(o.queued[k], b.Severity.Int)
+		}
+	}
 	if ci.Kind == "tx" && ci.Built != nil && ci.Before != nil {
 		if m, ok := ci.Built.Msg.(MsgTestBurn); ok && ci.Deliver.Code != 0 {
 			// a foreign module's burn request for a stored validator must be accepted (it is applied at the next BeginBlock)
@@ -135,7 +149,14 @@ func (o *c07Oracle) after(ch *chain, ci *callInfo) *Violation {
 		}
 		mv.stake.Sub(mv.stake, amt)
 		burned.Add(burned, amt)
-		if amt.Sign() > 0 && mv.stake.Cmp(minStake) < 0 {
+		force := mv.stake.Cmp(minStake) < 0
+		if force && amt.Sign() == 0 {
+			// the stake was below a raised minimum already and this slash removed nothing: the statement ("falls below")
+			// does not say whether that forces the unstake, so either outcome is accepted
+			got, ok := after.Vals[addr]
+			force = ok && got.Status == sdk.Unstaked
+		}
+		if force {
 			// below the minimum: force-unstaked with the remainder burned
 			burned.Add(burned, mv.stake)
 			mv.stake = new(big.Int)
@@ -145,7 +166,7 @@ func (o *c07Oracle) after(ch *chain, ci *callInfo) *Violation {
 	}
 	// 1. queued burns in address order, with the validator's consensus power at that moment
 	var burnAddrs []string
-	for a := range before.Burns {
+	for a := range o.queued {
 		burnAddrs = append(burnAddrs, a)
 	}
 	sort.Strings(burnAddrs)
@@ -158,8 +179,9 @@ func (o *c07Oracle) after(ch *chain, ci *callInfo) *Violation {
 		if mv.status == sdk.Staked {
 			power = new(big.Int).Quo(mv.stake, bigTen6).Int64()
 		}
-		slash(a, power, before.Burns[a])
+		slash(a, power, sdk.Dec{Int: o.queued[a]})
 	}
+	o.queued = map[string]*big.Int{}
 	// 2. downtime slashes (the block's events tell which validators crossed the threshold; C08 decides when)
 	downtime := map[string]bool{}
 	for _, ev := range ci.Begin.Events {
@@ -302,7 +324,7 @@ func execC07(prog interface{}, c *Case) *Violation {
 	if v != nil || ch == nil {
 		return v
 	}
-	o := &c07Oracle{c: c, pendingAwards: sdk.ZeroInt(), awardTo: map[string]sdk.Int{}}
+	o := &c07Oracle{c: c, pendingAwards: sdk.ZeroInt(), awardTo: map[string]sdk.Int{}, queued: map[string]*big.Int{}}
 	if v := ch.run(o); v != nil {
 		return v
 	}
